@@ -216,6 +216,101 @@ def drive_dyadic(item):
             '_cost': len(obs) * n}
 
 
+MUL = {('I', 'I'): 'I'}
+for a_ in 'IXYZ':
+    for b_ in 'IXYZ':
+        if a_ == 'I':
+            MUL[(a_, b_)] = b_
+        elif b_ == 'I':
+            MUL[(a_, b_)] = a_
+        elif a_ == b_:
+            MUL[(a_, b_)] = 'I'
+        else:
+            MUL[(a_, b_)] = ({'X', 'Y', 'Z'} - {a_, b_}).pop()
+INF = 100000
+
+
+@common.safe
+def drive_metropolis(item):
+    """Steps of the real SplittingSimulation.get_next_error with np.random
+    scripted: the qubit, the Pauli and the coin are dictated, the bias handed
+    to the coin and the list of Paulis offered are recorded."""
+    import contextlib
+    import io
+    from panqec.decoders import MatchingDecoder
+    name, size, dn, kw, exps, tier, seed = item
+    code = codes.build(name, size)
+    n = code.n
+    rng = np.random.default_rng(seed)
+    r = tuple(0.0 if x >= INF else 2.0 ** (1 - x) for x in exps)
+    em = PauliErrorModel(*r, deformation_name=dn, deformation_kwargs=dict(kw))
+    p = 0.5
+    dec = MatchingDecoder(code, em, p)
+    oracle = MatchingDecoder(code, em, p)
+    sim = SplittingSimulation(code, em, [dec], [p], n_init_runs=1, verbose=False)
+    script = {}
+
+    def choice(a, size=None, replace=True, p=None):
+        script['calls'] = script.get('calls', 0) + 1
+        k = script['calls']
+        if k == 1:
+            return script['q']
+        if k == 2:
+            script['offered'] = [str(x) for x in a]
+            return a[script['letter'] % len(a)]
+        script['bias'] = float(p[1])
+        return 1 if (script['coin'] and p[1] > 0) else 0
+
+    def letters_of(e):
+        e = np.asarray(e).astype(int).ravel() % 2
+        return [XZ[(int(e[q]), int(e[n + q]))] for q in range(n)]
+
+    def fails(e):
+        with contextlib.redirect_stdout(io.StringIO()):
+            c = np.asarray(oracle.decode(code.measure_syndrome(e))).ravel()
+        t = (c + e) % 2
+        return bool(code.is_logical_error(t) or not code.in_codespace(t))
+
+    starts = [np.asarray(code.logicals_x[0]).astype(np.uint8), np.asarray(code.logicals_z[0]).astype(np.uint8)]
+    cur = starts[seed % 2].copy()
+    obs = []
+    real = np.random.choice
+    np.random.choice = choice
+    try:
+        for t in range(40 if tier == 'quick' else 300):
+            script.clear()
+            script.update(q=int(rng.integers(n)), letter=int(rng.integers(3)),
+                          coin=bool(rng.random() < 0.8))
+            with contextlib.redirect_stdout(io.StringIO()), np.errstate(divide='ignore', invalid='ignore'):
+                nxt, lp = sim.get_next_error(dec, p, cur.copy())
+            nxt = np.asarray(nxt).astype(np.uint8).ravel() % 2
+            s = script['offered'][script['letter'] % len(script['offered'])]
+            cl = letters_of(cur)
+            new = list(cl)
+            new[script['q']] = MUL[(cl[script['q']], s)]
+            newv = np.zeros(2 * n, dtype=np.uint8)
+            for q_, l_ in enumerate(new):
+                newv[q_] = l_ in 'XY'
+                newv[n + q_] = l_ in 'YZ'
+            bias = script.get('bias', 0.0)
+            if bias <= 0:
+                acc = INF
+            else:
+                b_ = -math.log2(bias)
+                acc = int(round(b_)) if abs(b_ - round(b_)) < 1e-7 else -1
+            obs.append({'cur': cl, 'q': script['q'], 'offered': script['offered'], 's': s,
+                        'accbits': acc, 'coin': bool(script['coin'] and bias > 0),
+                        'fails': fails(newv), 'next': letters_of(nxt),
+                        'repbits': bits_of(float(lp)) if np.isfinite(lp) else INF})
+            cur = nxt
+    finally:
+        np.random.choice = real
+    return {'kind': 'metropolis', 'n': int(n), 'chan': [0, 0, 0, 0], 'D': dtable(code, dn, kw),
+            'lin': [], 'logx': [], 'obs': obs, 'exps': list(exps),
+            '_label': f'{codes.label(name, size, dn, kw)} metropolis exps={exps}',
+            '_cost': len(obs) * n}
+
+
 def large_subjects(tier):
     out = []
     for name in codes.CLASSES:
@@ -237,6 +332,10 @@ def run(tier):
     common.require_ok(model, 'Noise_Model')
     if model['violation']:
         raise common.MachineryError('Noise_Model violated')
+    smodel = common.run_tlc('Splitting_Model', workers=16, timeout=1500)
+    common.require_ok(smodel, 'Splitting_Model')
+    if smodel['violation']:
+        raise common.MachineryError('Splitting_Model violated:\n' + smodel['stdout'][-1500:])
     jobs = []
     for k, (name, size, dn, kw) in enumerate(small_subjects(tier)):
         chans = [CHANS[(k + j) % len(CHANS)] for j in range(5)] if tier != 'quick' else [CHANS[k % len(CHANS)], CHANS[(k + 3) % len(CHANS)], CHANS[3]]
@@ -261,6 +360,15 @@ def run(tier):
         for exps in (sorted(set(perms)) if tier != 'quick' else [sorted(set(perms))[k % 3]]):
             djobs.append((name, size, dn, kw, exps, tier, common.seed() + k))
     recs += common.pmap(drive_dyadic, djobs, procs=15)
+    # the Metropolis step itself, driven with a scripted np.random
+    mjobs = []
+    for k, (name, size) in enumerate([('RotatedPlanar2DCode', (3, 3)), ('Toric2DCode', (2, 3)),
+                                      ('Planar2DCode', (2, 3)), ('RotatedPlanar2DCode', (2, 4))]):
+        vs = codes.deformation_variants(name)
+        for dn, kw in (vs[:1] + vs[-1:]):
+            for exps in [(2, 3, 3), (3, 2, 3), (3, 3, 2), (2, 2, INF), (INF, 2, 2), (1, INF, INF)][:: (2 if tier == 'quick' else 1)]:
+                mjobs.append((name, size, dn, kw, exps, tier, common.seed() + k + len(mjobs)))
+    recs += common.pmap(drive_metropolis, mjobs, procs=15)
     recs = common.split_raised('C18', v, recs)
     for j, r in enumerate(recs):
         r['id'] = j
@@ -283,7 +391,7 @@ def run(tier):
     common.write_evidence(
         'C18', tier, 'model_checking',
         {
-            'states': model['distinct'] + st['distinct'],
+            'states': model['distinct'] + smodel['distinct'] + st['distinct'],
             'transitions': model['generated'] + st['generated'],
             'traces_validated_against_impl': len(recs),
             'samples': [{'case': r['_label'], 'kind': r['kind'],
